@@ -557,15 +557,16 @@ class ObservableResource(Resource, metaclass=abc.ABCMeta):
 
                 if response is None:
                     response = await self.render(pipe.request)
-                else:
-                    # The same message may have been handed to several
-                    # observations (eg. by
-                    # resource.ObservableResource.updated_state(response)).
-                    # Token, remote, message ID and type and the Observe
-                    # option are set per observation on the way out, and a
-                    # CON notification is kept for retransmission, so every
-                    # observation needs a message of its own.
-                    response = response.copy()
+
+                # The same message may have been handed to several
+                # observations (eg. by
+                # resource.ObservableResource.updated_state(response), or
+                # by a render() that returns a message it keeps).
+                # Token, remote, message ID and type and the Observe
+                # option are set per observation on the way out, and a
+                # CON notification is kept for retransmission, so every
+                # observation needs a message of its own.
+                response = response.copy()
 
                 # If block2 were to happen here, we'd store the full response
                 # here, and pick out block2:0.
